@@ -36,6 +36,13 @@ def check_markers(moddir, flags=None, known=None):
                 touched_by[fn] = t
             touched = {i for i, (fn, ln) in adj.items() if ln in touched_by[fn]}
             for i, line in enumerate(src_lines, 1):
+                mfp = re.search(r"//KNOWNFP:([\w-]+)", line)
+                if mfp:
+                    # only non-nil values reach this line, yet the tool is known to report it (a listed finding)
+                    n += 1
+                    if known is not None and i in touched:
+                        known.append((mfp.group(1), "%s:%d" % (rel, i)))
+                    continue
                 mk = re.search(r"//KNOWN:([\w-]+)", line)
                 if mk:
                     n += 1
